@@ -657,6 +657,11 @@ class RewritingContext:
             if isinstance(modification, _InsertionOrReplacement):
                 context = InsertionContext(self._module, func, block, offset)
                 if isinstance(modification.patch, Patch):
+                    # The assembler resolves the symbols a patch names by
+                    # reading Symbol.referent directly, so references that
+                    # earlier modifications left pending in the cache have
+                    # to be made direct first.
+                    modify_cache.reference_cache.apply()
                     assembler_result = self._invoke_patch(
                         modification.patch,
                         actual_block,
